@@ -314,7 +314,7 @@ theorem roots_rebound (cols : List (Uid × ColMeta)) (hc : ∀ e ∈ cols, e.2.f
       ∀ ft ∈ colFtypes root, ft = .elementWise := by
   intro root hroot ft hft
   cases node with
-  | mutate i c n v u =>
+  | mutate i c n v u mt =>
       simp only [Ast.setChild, Ast.mapRoots, Ast.mapColArgs, Ast.colRoots, List.mem_map] at hroot
       obtain ⟨e, he, rfl⟩ := hroot
       exact rebind_ftypes cols hc e (fun u hu => hs e (by simpa [Ast.colRoots] using he) u hu) ft hft
@@ -322,7 +322,7 @@ theorem roots_rebound (cols : List (Uid × ColMeta)) (hc : ∀ e ∈ cols, e.2.f
       simp only [Ast.setChild, Ast.mapRoots, Ast.mapColArgs, Ast.colRoots, List.mem_map] at hroot
       obtain ⟨e, he, rfl⟩ := hroot
       exact rebind_ftypes cols hc e (fun u hu => hs e (by simpa [Ast.colRoots] using he) u hu) ft hft
-  | summarize i c n v u =>
+  | summarize i c n v u mt =>
       simp only [Ast.setChild, Ast.mapRoots, Ast.mapColArgs, Ast.colRoots, List.mem_map] at hroot
       obtain ⟨e, he, rfl⟩ := hroot
       exact rebind_ftypes cols hc e (fun u hu => hs e (by simpa [Ast.colRoots] using he) u hu) ft hft
